@@ -38,6 +38,12 @@ PROPS["C18"] = {
     "assumptions": ["tokio::time::Instant::now replaced by a harness clock returning arbitrary instants (layout self-checked each run)"],
 }
 
+PROPS["C10"] = {
+    "level_text": "Proof by contract, full input domain (all float bit patterns incl. NaN/inf, all flag octets, all 48-bit times), of every database-to-wire and wire-to-handler conversion pair against spec functions written from the property and IEEE 1815 Annex A: saturation + OVER_RANGE, low-16-bit counters, packed formats only for plain ONLINE, relative-time (CTO) write and exact reconstruction, event writer step.",
+    "level_note": "Proved per conversion function, per ToVariation/From pair, per write_cto/EventWriter step and per promote call; not covered: BTreeMap range iteration order in write_typed_range, the master's header fold that carries the CTO between headers, extract_measurements_to arms, the database update path, byte codecs (those are C09). Time quality through absolute-time variations and flags through flag-less non-packed variations are not on the wire and are not asserted.",
+    "not_covered": ["outstation::database::details::range::static_db::write_typed_range (BTreeMap order: std, trusted)", "master::extract::extract_measurements_inner fold over headers (dispatcher does not finish in CBMC)"],
+}
+
 NA = {
     "C02": "whole-system history over real TCP and three threads: no function contract within reach expresses it (Kani has no threads, tokio I/O crashes the Kani compiler); its ingredients are decided under C03/C06/C08/C09/C10/C13",
     "C14": "every rule is control flow inside async fns that hold the physical layer (check_unsolicited, perform_unsolicited_response_series, wait_for_unsolicited_confirm, handle_deferred_read): outside both verifiers",
